@@ -882,6 +882,44 @@ def _large_shard(ctx: Ctx, shard: int, nshards: int, examples: int) -> None:
     hyp_run(ctx, "large", _large_strategy(), body, examples, shrink_examples=20)
 
 
+def _deep_shard(ctx: Ctx, shard: int, nshards: int, sizes: tuple) -> None:
+    """
+    Root paths deeper than any default limit of the tree's helpers (get_root_path / verify stop at 1000 steps, which the
+    statement does not make a limit of serialisation): a chain of n tokens, handed over parents first, is serialised
+    up to its tip and in full, and each serialisation must reload to the same tree.
+    """
+    from ipv8.attestation.tokentree.tree import TokenTree
+    for k, n in enumerate(sizes):
+        if k % nshards != shard:
+            continue
+        case = {"deep_chain": n, "curve": "curve25519", "owner": 1}
+        owner = keypool.key(1, "curve25519")
+        src = TokenTree(private_key=owner)
+        tok, toks = None, []
+        for i in range(n):
+            tok = src.add(b"deep-%d" % i, after=tok)
+            toks.append(tok)
+        pub = owner.pub()
+        view = TokenTree(public_key=pub)
+        for t in toks:
+            view.gather_token(view_token := type(t).unserialize(t.get_plaintext_signed(), pub))
+        want = {t.get_hash() for t in toks}
+        if ctx is not None:
+            ctx.case(("deep", n), True, cls="deep_chain:%d" % n, sample=case)
+        if set(view.elements) != want:
+            ctx.violation(Violation("E1", "gather_token:deep", f"a chain of {n} tokens handed over parents first gives a tree of "
+                                                               f"{len(view.elements)} tokens", case))
+            continue
+        for what, blob in (("up_to", view.serialize_public(up_to=view.elements[toks[-1].get_hash()])),
+                           ("full", view.serialize_public())):
+            fresh = TokenTree(public_key=pub)
+            fresh.unserialize_public(blob)
+            if set(fresh.elements) != want:
+                ctx.violation(Violation("E5", "serialize_public:" + what + ":deep",
+                                        f"serialize_public({'up_to=tip' if what == 'up_to' else ''}) of a chain of {n} tokens "
+                                        f"is {len(blob)} bytes and reloads to {len(fresh.elements)} tokens", case))
+
+
 def _overflow_shard(ctx: Ctx, shard: int, nshards: int, examples: int) -> None:
     def body(case):
         execute(ctx, case, deep=False)
@@ -895,11 +933,13 @@ def run(ctx: Ctx) -> None:
         shard_run(ctx, _random_shard, extra=(40,))
         shard_run(ctx, _overflow_shard, extra=(2,))
         shard_run(ctx, _large_shard, extra=(2,))
+        shard_run(ctx, _deep_shard, extra=((1001, 1100),))
     else:
         shard_run(ctx, _exhaustive_shard, extra=(6, 12, 7, 10))
         shard_run(ctx, _random_shard, extra=(1000,))
         shard_run(ctx, _overflow_shard, extra=(12,))
         shard_run(ctx, _large_shard, extra=(25,))
+        shard_run(ctx, _deep_shard, extra=((1000, 1001, 1002, 1500, 2500, 5000),))
     ctx.note("shapes_per_size", {str(n): len(shapes(n)) for n in range(1, (6 if ctx.quick else 7) + 1)})
     ctx.note("arrival_orders_enumerated", sum(len(shapes(n)) * _fact(n) for n in range(1, (6 if ctx.quick else 7) + 1)))
 
@@ -912,4 +952,18 @@ def _fact(n: int) -> int:
 
 
 def replay(ctx: Ctx, case: dict) -> None:
+    if "deep_chain" in case:
+        class _C:
+            found = None
+
+            def case(self, *a, **k):
+                pass
+
+            def violation(self, v):
+                self.found = self.found or v
+        c = _C()
+        _deep_shard(c, 0, 1, (case["deep_chain"],))
+        if c.found is not None:
+            raise c.found
+        return
     execute(None, case, deep=True)
